@@ -148,11 +148,17 @@ class Run:
     pass
 
 
-def run_scenario(sc, chooser, eager=('writer',), max_steps=6000, probe=True):
-    """-> Run with: status, trace, events, calls, lis, lines (queue order), sent (bytes), final (dict), taken"""
+FINE_FILES = ('lightstreamer_adapter/server.py', 'lightstreamer_adapter/subscription.py')
+
+
+def run_scenario(sc, chooser, eager=('writer',), max_steps=6000, probe=True, fine=False, fine_seed=0):
+    """-> Run with: status, trace, events, calls, lis, lines (queue order), sent (bytes), final (dict), taken.
+    fine: every source line of server.py / subscription.py is a preemption point (oracle-only runs)"""
     from lightstreamer_adapter.server import DataProviderServer
     import wire
-    S = dsched.Sched()
+    S = dsched.Sched(fine=FINE_FILES if fine else None, fine_seed=fine_seed)
+    if fine:
+        max_steps = max_steps * 8
     log = {'calls': [], 'lis': [], 'sizes': {int(k): v for k, v in sc.sizes.items()}}
     stream = [b'1|DPI|S|ARI.version|S|1.9.1\r\n']
     for ch in sc.chunks:
